@@ -524,3 +524,33 @@ RECIPES += [
     ("C13", "neutral", [], B, '''                            num_str = f"{num.real:16.9E}{num.imag:16.9E}"''', '''                            re_part, im_part = num.real, num.imag
                             num_str = f"{re_part:16.9E}" + f"{im_part:16.9E}"''', "wtdmig complex parts through temporaries (F12 keys must survive)"),
 ]
+
+RECIPES += [
+    ("C13", "neutral", [], W, '''                fncs.append(_get_itemi)
+''', '''                fncs.append(lambda vec, k: [vec[k]])
+''', "vecwrite accessor as a lambda"),
+    ("C13", "neutral", [], B, '''        for col in range(m.shape[1]):
+            if m[:, col].any():''', '''        nrow_m, ncol_m = value.shape
+        for col in range(ncol_m):
+            if m[:, col].any():''', "wtdmig column count from the frame's shape"),
+]
+
+RECIPES += [
+    ("C13", "neutral", [], B, '''    t, d = np.atleast_1d(t, d)
+    t = t.ravel()
+    d = d.ravel()
+    npts = len(t)''', '''    t = np.ravel(np.asarray(t))
+    d = np.ravel(np.asarray(d))
+    npts = len(t)''', "tabled1 inputs flattened with np.ravel"),
+    ("C13", "neutral", [], B, '''        rows = npts // 4
+        r = rows * 4
+        if rows:''', '''        rows, rem = divmod(npts, 4)
+        r = npts - rem
+        if rows != 0:''', "tabled1 small field: divmod"),
+    ("C13", "neutral", [], B, '''        f.write(f"{tablestr:<8s}{tid:8d}\\n")
+        rows = npts // 4''', '''        f.write(tablestr.ljust(8) + str(tid).rjust(8) + "\\n")
+        rows = npts // 4''', "tabled1 small header by ljust / rjust"),
+    ("C13", "neutral", [], B, '''        c = np.size(v, 1)
+        if c < 8:''', '''        c = len(v[0])
+        if c < 8:''', "rdgrids column count as len(v[0])"),
+]
